@@ -141,7 +141,15 @@ func (fr *Frame) execInstr(ins ssa.Instruction) {
 	case *ssa.Store:
 		a := fr.get(ins.Addr)
 		fr.nilCheck(ins, a.L[0])
-		fr.storeVal(a.L[0], elemOf(ins.Addr.Type()), fr.get(ins.Val))
+		val := fr.get(ins.Val)
+		fr.storeVal(a.L[0], elemOf(ins.Addr.Type()), val)
+		// ghost monitor: $rejected counts the times a non-nil error is recorded in a parse buffer
+		if fa, ok := ins.Addr.(*ssa.FieldAddr); ok {
+			if st, ok := elemOf(fa.X.Type()).Underlying().(*types.Struct); ok && st.Field(fa.Field).Name() == "err" && typeStr(elemOf(fa.X.Type())) == "mq.buffer" {
+				cur := fr.ghostGet("$rejected")
+				fr.st.ghost["$rejected"] = vc.define("g_rejected", "Int", ite(eq(val.L[0], "0"), cur, add(cur, "1")))
+			}
+		}
 	case *ssa.TypeAssert:
 		fr.typeAssert(ins)
 	case *ssa.Phi:
@@ -410,7 +418,7 @@ func (fr *Frame) valEq(ins ssa.Instruction, x, y *Val) string {
 		if isNilIface(x) {
 			return eq(y.L[0], "0")
 		}
-		return and(eq(x.L[0], y.L[0]), eq(x.L[1], y.L[1]))
+		return and(eq(x.L[0], y.L[0]), or(eq(x.L[0], "0"), eq(x.L[1], y.L[1])))
 	}
 	if isStringT(t) {
 		if ly, ok := parseIntLit(y.L[1]); ok && ly.Sign() == 0 {
